@@ -6,15 +6,16 @@ META = {
     'technique': 'Lean 4 theorems over all fault plans (no panic; non-fatal; containment; status characterisation) + fault-injecting correspondence with scalibr.Scan',
     'design_ref': 'DESIGN.md §5 C09',
     'text': 'Kernel-checked for ALL trees and ALL fault plans (any number of simultaneous faults over stat/open-dir/k-th read/open-file/stat-on-open/lazy size stat/.gitignore open): '
-            'the engine never panics unless an extractor does; with errors not fatal no fault set fails the scan; the attempts made are those of the fault-free scan minus the '
-            'files under/after the failing site; statuses are failed/partial exactly when an attempt failed. Tied to the Go engine through a fault-injecting fs.FS.',
+            'the ONE engine-side panic site of the model (the deferred gitignore-stack pop) is unreachable, so a scan ends with the panic outcome only if an extractor panics (other Go panic sources have no outcome in the model: stream only); with errors not fatal no fault set fails the scan; the attempts made are those of the fault-free scan minus the '
+            'files under/after the failing site — for ANY plan, mixed unreadable .gitignore + other faults and requested paths included (C09_contained_any, C09_contained_run_any_benign; the driver prints that right-hand side as contained= and the implementation is judged against it); statuses are failed/partial exactly when an attempt failed, as a function of each attempts of that root in EVERY configuration without a panicking extractor (C09_statuses_of_calls). Fault plans are ENUMERATED for small trees (all single faults; all pairs in the thorough tier) besides the sampled stream. There is no file-content read fault: the engine never reads contents, it hands the reader to Extract. Tied to the Go engine through a fault-injecting fs.FS.',
     'note': 'Trusted as in C01. Fault kinds: one non-permission error class (permission errors differ only in log level). '
-            'C09_fatal: scan error = fs exactly when traversalFaultScan, for all forests and fault plans.',
+            'C09_fatal_fatalcfg: scan error = fs exactly when traversalFaultScan, for all forests and fault plans.',
 }
-THEOREMS = ['Scalibr.Walk.C09_no_panic', 'Scalibr.Walk.C09_nonfatal', 'Scalibr.Walk.C09_contained', 'Scalibr.Walk.C09_surfaced',
-            'Scalibr.Walk.C09_status_meaning', 'Scalibr.Walk.C09_fatal', 'Scalibr.Walk.C09_fatal_step', 'Scalibr.Walk.walkNode_fatal', 'Scalibr.Walk.walkNode_stack', 'Scalibr.Walk.mustOne_contained',
-            'Scalibr.Walk.C09_contained_run', 'Scalibr.Walk.C09_contained_noFaults', 'Scalibr.Walk.C09_gitignore_unreadable', 'Scalibr.Walk.C09_gitignore_unreadable_run',
-            'Scalibr.Walk.C09_fatal_anchor', 'Scalibr.Walk.C09_fatal_declarative', 'Scalibr.Walk.C09_fatal_clean', 'Scalibr.Walk.C09_eofs_only_by_failing']
+THEOREMS = ['Scalibr.Walk.C09_no_panic', 'Scalibr.Walk.C09_nonfatal_benign', 'Scalibr.Walk.C09_contained_partial', 'Scalibr.Walk.C09_surfaced_benign',
+            'Scalibr.Walk.C09_status_meaning', 'Scalibr.Walk.C09_fatal_fatalcfg', 'Scalibr.Walk.C09_fatal_step', 'Scalibr.Walk.walkNode_fatal', 'Scalibr.Walk.walkNode_stack', 'Scalibr.Walk.mustOne_contained',
+            'Scalibr.Walk.C09_contained_run_partial', 'Scalibr.Walk.C09_contained_noFaults', 'Scalibr.Walk.C09_gitignore_unreadable', 'Scalibr.Walk.C09_gitignore_unreadable_run_partial',
+            'Scalibr.Walk.C09_fatal_anchor', 'Scalibr.Walk.C09_fatal_declarative_fatalcfg', 'Scalibr.Walk.C09_fatal_clean_fatalcfg', 'Scalibr.Walk.C09_eofs_only_by_failing',
+            'Scalibr.Walk.C09_contained_any', 'Scalibr.Walk.C09_contained_run_any_benign', 'Scalibr.Walk.C09_statuses_of_calls', 'Scalibr.Walk.C09_statusSpec_is_statusOfCalls']
 
 
 def run(ctx):
@@ -32,11 +33,20 @@ def run(ctx):
         # no panic unless an extractor panics (the case line carries the panic flags: "=<err><panic>:")
         if fi.get('err') == 'panic' and not any(t.split('=')[1][1:2] == '1' for t in case.split(' ')[7].split(';') if '=' in t):
             return 'the scan panicked although no extractor panics'
-        # statuses: under the benign hypothesis the model's statuses ARE statusSpec (theorem C09_surfaced); compare the implementation's with them
-        if fm.get('hyp') == '1' and fi.get('st') != fm.get('st'):
-            return 'plugin statuses %s differ from the specified ones %s' % (fi.get('st'), fm.get('st'))
         return None
     W.run_stream(ctx, 'faults', n, oracle)
     W.run_stream(ctx, 'mixed', n // 4, oracle)
+    # ---- "every single fault and every pair of faults over all operation sites of generated small trees": ENUMERATED, not sampled.
+    # Sites of a tree: stat of every node (root / requested-path stat, lazy size stat), open of every directory, open of every directory's
+    # .gitignore, every ReadDir(1) call 0..#entries of every directory, open and Stat()-on-open of every file. thorough: fault-free + ALL single-site
+    # plans + ALL pairs for each base tree (faultsx); quick: fault-free + all single-site plans + 12 seeded pairs per base tree (faultsq).
+    sites = {}
+
+    def cls_enum(case, fi, fm):
+        k = 'enumerated plan=%s verdict=%s' % (fi.get('plan'), 'calls' if fm.get('hyp') == '1' else 'fatal' if fm.get('fatalhyp') == '1' else '-')
+        sites[fi.get('nsites')] = sites.get(fi.get('nsites'), 0) + 1
+        return k
+    W.run_stream(ctx, 'faultsx' if ctx.tier == 'thorough' else 'faultsq', n // 4 if ctx.tier == 'thorough' else n // 8, oracle, classify=cls_enum)
+    ctx.extra['enumerated_fault_plans_by_number_of_sites'] = dict(sorted(sites.items(), key=lambda kv: int(kv[0] or 0)))
     if not ok:
         lib.proof_failed(ctx, 'Scalibr.Properties.C09')
